@@ -15,7 +15,9 @@ setup)
   ;;
 run)
   patch="$3"; label="$4"; shift 4
-  git -C "$L/repo" checkout -q -- . ; git -C "$L/repo" apply "$patch" || { echo "$label: patch does not apply"; exit 2; }
+  # always test against the current HEAD of /repo (fix commits may have landed since the lane was set up)
+  git -C "$L/repo" checkout -q -- . ; git -C "$L/repo" checkout -q --detach "$(git -C /repo rev-parse HEAD)"
+  git -C "$L/repo" apply "$patch" || git -C "$L/repo" apply --3way "$patch" || { echo "$label: patch does not apply"; git -C "$L/repo" checkout -q -- .; exit 2; }
   rsync -a --exclude target --exclude Cargo.toml /verif/mc/ "$L/mc/"
   (cd "$L/mc" && CARGO_TARGET_DIR="$L/target" cargo build --release --offline > "$L/out/build.log" 2>&1) || { echo "$label: ENGINE BUILD FAILED"; tail -5 "$L/out/build.log"; git -C "$L/repo" checkout -q -- .; exit 2; }
   for c in "$@"; do
